@@ -51,7 +51,18 @@ def gen_case(rng, i, tier):
     return case
 
 
+def shard_setup(ctx):
+    mon = monitors.StampMonitor()
+    mon.install()
+    ctx.state["stamps"] = mon
+
+
+def shard_teardown(ctx):
+    ctx.state["stamps"].uninstall()
+
+
 def check_case(ctx, case):
+    ctx.state["stamps"].reset()
     mp = build.make_inmem(case["map"])
     mt = build.make_matcher(mp, case["cfg"])
     model = MapModel(case["map"])
@@ -83,7 +94,7 @@ def check_case(ctx, case):
             ctx.count("paths_with_nonemitting")
         if len(mt.lattice_best) >= 3:
             big[0] = True
-        for kind, text in oracles.rescore_path(mt, fam, model, counters):
+        for kind, text in oracles.rescore_path(mt, fam, model, counters, stamps=ctx.state["stamps"]):
             order = "second-order" if case["cfg"]["agb"] else "first-order"
             if "stale-child" in kind:
                 ctx.violation(f"C02:{kind}", case, f"after operation #{i} {op} [{fam}, {order}]: {text}")
